@@ -272,8 +272,11 @@ def quantize_real(x,
         data_mean, data_std = data_stream.estimate_stats(x, stats_calc_num_samples)
     
     # Constant input has zero variance, but its computed deviation is zero only
-    # up to the rounding of the mean (e.g. np.std(np.full(3, 0.1)) is 1.4e-17)
-    if data_std <= 16 * np.finfo(float).eps * abs(data_mean):
+    # up to the rounding of the mean (e.g. np.std(np.full(3, 0.1)) is 1.4e-17),
+    # in the precision that the statistics were computed in (float32 data
+    # gives float32 statistics)
+    stats_dtype = np.promote_types(getattr(data_mean, 'dtype', float), np.float32)
+    if data_std <= 16 * np.finfo(stats_dtype).eps * abs(data_mean):
         factor = 0
     else:
         factor = target_std / data_std
